@@ -325,6 +325,22 @@ def pairs_euler1d(ctx, rng, idx):
     _subsets(ctx, rng, "euler-" + flux, lambda l, r, d: model.numflux(flux, l, r), [rL, uL, pL], [rR, uR, pR], F,
              {"equal": (rL == rR) & (uL == uR) & (pL == pR), "supersonic-right": (mL > 1) & (mR > 1), "supersonic-left": (mL < -1) & (mR < -1), "subsonic": (np.abs(mL) < 1) & (np.abs(mR) < 1),
               "at-rest": (uL == 0) & (uR == 0), "right-running": (uL > 0) & (uR > 0), "left-running": (uL < 0) & (uR < 0)})
+    # mixed forms: ONE left (or right) state given as python floats / numpy scalars against an array of states on the other side
+    # (plain broadcasting): the result must be that of the same call with the state repeated in full arrays
+    j0 = int(rng.integers(n)); side = int(rng.integers(2)); cast = [float, np.float64][int(rng.integers(2))]
+    one = [cast(rL[j0]), cast(uL[j0]), cast(pL[j0])] if side == 0 else [cast(rR[j0]), cast(uR[j0]), cast(pR[j0])]
+    rep = [np.full(n, v) for v in one]
+    try:
+        with probes.quiet():
+            Fm = model.numflux(flux, one, [rR, uR, pR]) if side == 0 else model.numflux(flux, [rL, uL, pL], one)
+            Ff = model.numflux(flux, rep, [rR, uR, pR]) if side == 0 else model.numflux(flux, [rL, uL, pL], rep)
+        for i in range(3):
+            a_, b_ = np.broadcast_to(np.asarray(Fm[i], float), (n,)), np.asarray(Ff[i], float)
+            ok = np.isfinite(b_)
+            ctx.close("euler-scalar-call", float(np.max(np.abs(a_ - b_)[ok] / (np.abs(b_[ok]) + np.max(np.abs(b_[ok])) * 1e-6 + 1e-300))) if np.any(ok) else 0.0, 1e-12,
+                      "euler-%s/one-state-against-an-array-differs-from-full-arrays" % ("hllc" if flux is None else flux), {"eq": i, "scalar side": "left" if side == 0 else "right", "type": cast.__name__}, cls="scalar-calls")
+    except (AttributeError, TypeError, ValueError) as e:
+        ctx.skip("mixed-scalar-array:refused(%s)" % type(e).__name__)
     # the same states one by one as python floats and as numpy scalars (1D boundary faces are evaluated that way): judged by the
     # monitor like any other call, and equal to the array result up to the libm-pow ulp
     for j in rng.integers(0, n, 6):
